@@ -4,7 +4,10 @@ from play_common import impl_exec, impl_exec_multi, classify, nontrivial  # noqa
 from common import Case
 
 TITLE = 'Tricks are won, led and counted according to the laws of play'
-REQUIRED = ['calc_highest_spec', 'trick_winner_is_law', 'opening_lead_and_dummy', 'turn_passes_clockwise',
+LEAN_TARGETS = ['BridgeVerif.Props.C04', 'BridgeVerif.Translated.Play']
+AUDIT_PROPS = ['C04', 'Translated.Play']
+REQUIRED = ['Translated.Play.calc_highest_translated', 'Translated.Play.play_card_translated', 'Translated.Play.run_translated_play', 'Translated.Play.play_init_translated_cases', 'Translated.Play.play_has_done_translated',
+            'calc_highest_spec', 'trick_winner_is_law', 'opening_lead_and_dummy', 'turn_passes_clockwise',
             'winner_unique', 'winner_leads_next', 'one_trick_credited_to_winners_side', 'incomplete_trick_step', 'history_is_tricksOf', 'passed_out_not_playable',
             'after_52_cards', 'has_done_iff_52']
 RULE = ('random contracts (35 bids x 4 declarers) and deals (incl. voids / long suits) played to the end through '
